@@ -806,4 +806,3 @@ func regionKey(path string) string {
 	}
 	return strings.Join(seg, "/")
 }
-
